@@ -543,8 +543,42 @@ func c05Buffers(c *Ctx) {
 				bad = append(bad, sprintf("c.%s holds a window of the input (stored at %s) and is written by %s", fl, where, w))
 			}
 		}
+		// ... and the registers NewCipher sets up are the cipher's own: a field that NewCipher points at a window
+		// of its key / iv argument and that this method writes through changes the caller's key or IV
+		if ctor := c.P.Func(load.IgePkg, "", "NewCipher"); ctor != nil {
+			for _, b := range ctor.Blocks {
+				for _, in := range b.Instrs {
+					st, ok := in.(*ssa.Store)
+					if !ok {
+						continue
+					}
+					fa, ok := st.Addr.(*ssa.FieldAddr)
+					if !ok {
+						continue
+					}
+					n := an.FieldName(fa.X.Type(), fa.Field)
+					if !strings.HasPrefix(n, "ige.Cipher.") {
+						continue
+					}
+					v := st.Val
+					for {
+						if sl, ok := v.(*ssa.Slice); ok {
+							v = sl.X
+							continue
+						}
+						break
+					}
+					if prm, ok := v.(*ssa.Parameter); ok {
+						fl := strings.TrimPrefix(n, "ige.Cipher.")
+						if w, isW := written[fl]; isW {
+							bad = append(bad, sprintf("c.%s is a window of NewCipher's argument %s (stored at %s) and is written by %s", fl, prm.Name(), c.pos(st.Pos()), w))
+						}
+					}
+				}
+			}
+		}
 		sort.Strings(bad)
-		if len(aliased) == 0 {
+		if len(aliased) == 0 && len(bad) == 0 {
 			r.Hold("R05.B", "input-untouched:"+name, c.pos(f.Pos()), "no window of the input is kept in the cipher state")
 			continue
 		}
